@@ -735,13 +735,18 @@ def setup():
     if not ok:
         print(out)
         return 1
+    # a failing build here is not a failure of the set-up: on a tree that changed a pinned function the pin theorems fail,
+    # and it is the checks' business to say so (each check builds its own module and reports); build what can be built
     ok, out = lake_build([])
     print(out[-3000:])
     if not ok:
-        return 1
+        print("setup: lake build reported failures (left to the checks to report)")
+        lake_build(["fbdriver"])
     ok, out = build_harness()
     print(out[-3000:])
-    return 0 if ok else 1
+    if not ok:
+        print("setup: harness build failed (left to the checks to report)")
+    return 0
 
 
 def replay(path):
